@@ -61,7 +61,7 @@ func main() {
 	}
 
 	meta := map[string]any{"shard_size": shardSize}
-	var shards []string
+	shards := []string{}
 
 	// ---- E1: classifier on synthetic errors
 	t0 := time.Now()
@@ -217,7 +217,7 @@ func writeJSONL(path string, n int, get func(int) any) {
 }
 
 func writeShards(dir, prefix, typ, check string, n int, get func(int) string) []string {
-	var shards []string
+	shards := []string{}
 	for s := 0; s*shardSize < n; s++ {
 		lo, hi := s*shardSize, (s+1)*shardSize
 		if hi > n {
